@@ -1,6 +1,6 @@
 (* Run_C12.v — entry points evaluated by the correspondence harness for C12:
    local acceptance and peer acceptance give the same verdict.  No proofs here. *)
-From DV Require Export RightsSpec AuthzRemote LocalJson NodeSize Run_C01 Run_C02.
+From DV Require Export RightsSpec AuthzRemote LocalJson LocalGlue NodeSize Run_C01 Run_C02.
 
 (* One local operation of author `me` on an instance A, and a peer B holding the same room
    definitions, the same data model and the same prior rows, to which the rows A writes are handed
@@ -16,6 +16,10 @@ Inductive c12case :=
 | CWrite (defs : list (uid * list event)) (dm : dmodel) (me : key) (h : mhead) (nadd : N)
 | CDelNode (defs : list (uid * list event)) (me : key) (now : Z) (n : dnode)
 | CDelRef (defs : list (uid * list event)) (me : key) (now : Z) (src : dnode) (edge_author : key)
+(* an UPDATE request submitted as text (parser -> MutationQuery::execute -> validate_mutation) on the stored row
+   of `author` in `room`: optionally another scalar field, and one operation on a reference field *)
+| CReq (defs : list (uid * list event)) (dm : dmodel) (me : key) (e : entity) (room : option uid) (date : Z)
+       (author : key) (other_field : bool) (op : refop)
 | CJson (fs : list lfield) (lits : list (N * lit))
 (* a creation (or an update) of a row by a caller who has every right: only the size limit decides.
    `signed` describes the row as signed by the caller. *)
@@ -62,10 +66,13 @@ Definition row_of (n : dnode) (now : Z) : rnode :=
      n_mdate := now - 5; n_author := dn_author n; n_sig := 1%N; n_sig_ok := true; n_too_big := false |}.
 Definition del_sends (n : dnode) : option uid := match dn_kind n with KAuthLike => None | KNormal => dn_room n end.
 
-(* what the model says the implementation does: [local verdict; what the peer stored ...] *)
-Definition run_C12 (c : c12case) : list Z :=
-  match c with
-  | CWrite defs dm me h nadd =>
+(* the head of the mutation an update request amounts to, after the glue of get_mutate_query *)
+Definition req_head (e : entity) (room : option uid) (date : Z) (author : key) (other : bool) (op : refop) : mhead :=
+  {| h_kind := KNormal; h_ent := e; h_room := room; h_date := date; h_has_node := row_rewritten other op;
+     h_too_big := false; h_old := Some {| o_room := room; o_author := author |}; h_edge_dels := snd (ref_effect op) |}.
+
+(* a one-row write: [local verdict; row stored by the peer (-1: nothing is handed over); references stored; tombstones stored] *)
+Definition run_write_model (defs : list (uid * list event)) (dm : dmodel) (me : key) (h : mhead) (nadd : N) : list Z :=
       let rooms := build_rooms defs in
       let rm := h_edge_dels h in
       let local := verdict_code (validate_entity me (h_date h) rooms (MEnt h [])) in
@@ -82,6 +89,20 @@ Definition run_C12 (c : c12case) : list Z :=
            zb acc;
            match find_room rooms rid with Some r => count (edge_ok r rid st2) adds | None => 0 end;
            count (edel_ok rooms st) tombs]
+      end.
+
+(* what the model says the implementation does: [local verdict; what the peer stored ...] *)
+Definition run_C12 (c : c12case) : list Z :=
+  match c with
+  | CWrite defs dm me h nadd => run_write_model defs dm me h nadd
+  | CReq defs dm me e room date author other op =>
+      (* [local verdict; rows / references / tombstones produced and handed to the peer, each followed by how many it stored] *)
+      let h := req_head e room date author other op in
+      let nadd := snd (fst (ref_effect op)) in
+      match write_sends h, run_write_model defs dm me h nadd with
+      | Some _, [l; n; a; t] => [l; 1; n; Z.of_N nadd; a; Z.of_nat (length (h_edge_dels h)); t]
+      | _, l :: _ => [l; 0; 0; 0; 0; 0; 0]
+      | _, [] => []
       end
   | CDelNode defs me now n =>
       let rooms := build_rooms defs in
@@ -142,6 +163,12 @@ Definition violations12 (c : c12case) (obs : list Z) : list Z :=
           let all_in := Z.eqb n 1 && Z.eqb a (Z.of_N nadd) && Z.eqb t (Z.of_nat (length (h_edge_dels h))) in
           if Z.eqb l 0 then (if all_in then [] else [0]) else (if all_in then [0] else [])
       end
+  | CReq defs dm me e room date author other op, [l; ns; ni; asent; ai; ts; ti] =>
+      (* judged on what the local path PRODUCED: accepted => the peer stores all of it;
+         refused => nothing would be handed over, or the peer refuses some of it *)
+      let all_in := Z.eqb ni ns && Z.eqb ai asent && Z.eqb ti ts in
+      let anything := Z.ltb 0 (ns + asent + ts) in
+      if Z.eqb l 0 then (if all_in then [] else [0]) else (if anything && all_in then [0] else [])
   | CDelNode defs me now n, [l; t] =>
       match del_sends n with
       | None => []
